@@ -255,7 +255,8 @@ def parse_obs_line(line):
     return parts[0], d
 
 def _run_shard(cmd, infile, outfile, timeout, memlimit_kb):
-    pre = 'ulimit -v %d; ' % memlimit_kb if memlimit_kb else ''
+    # the extracted model uses non-tail-recursive list functions: give it the whole stack it may need
+    pre = 'ulimit -s unlimited 2>/dev/null; ulimit -v %d; ' % memlimit_kb if memlimit_kb else ''
     return subprocess.Popen(['bash', '-c', pre + 'exec "$0" "$1" "$2"', cmd, infile, outfile],
                             stdout=subprocess.DEVNULL, stderr=subprocess.PIPE)
 
